@@ -2,7 +2,7 @@
    Only statements, closed by [exact lemma], with Print Assumptions beneath. *)
 From Coq Require Import String List NArith ZArith Bool.
 From J5V.lib Require Import Outcome.
-From J5V.model Require Import RulesDecl RulesWrite RulesRead RulesEnum Validate.
+From J5V.model Require Import RulesDecl RulesWrite RulesRead RulesEnum RulesSpec Validate.
 From J5V.gen Require Id62Gen RulesGen.
 From J5V.proofs Require Import RulesProofs RulesReadProofs RulesGenProofs RulesReadGenProofs.
 Import ListNotations.
@@ -75,13 +75,13 @@ Proof. exact norm_object_paths. Qed.
 Print Assumptions C04_proto_paths.
 
 (* the normal form of integer rules changes no meaning *)
-Theorem C04_norm_int_meaning : forall r z, int_rule_ok (norm_int r) z = int_rule_ok r z.
+Theorem C04_norm_int_meaning : forall r z, int_sem (norm_int r) z <-> int_sem r z.
 Proof. exact norm_int_sem. Qed.
 Print Assumptions C04_norm_int_meaning.
 
 (* enums as root schemas: description, prefix, option names (short), numbers
    (UNSPECIFIED = 0, the others 1..n in order) and option descriptions *)
-Theorem C04_enum : forall e, unspec_ok e = true -> read_enum (write_enum e) = Ok (norm_enum e).
+Theorem C04_enum : forall e, enum_rt e = true -> read_enum (write_enum e) = Ok (norm_enum e).
 Proof. exact c04_enum. Qed.
 Print Assumptions C04_enum.
 
